@@ -172,5 +172,13 @@ theorem isAlign_stepOp (b : Bag) (op : Op) : (stepOp b op).1.isAlign = b.isAlign
             · simp only [Option.some.injEq] at hr; subst hr; rfl
   | autoAlpha => rfl
   | revcomp => exact (reverseComplement_fields b).2.2.1
+  | replaceChar name site c =>
+    simp only [stepOp]
+    split
+    · rfl
+    · split
+      · rfl
+      · rename_i r hr
+        exact isAlign_replaceChar name site c b r hr
 
 end Gv.Proofs.BagAbs
